@@ -815,9 +815,15 @@ pub fn run_plan<T: El + PartialEq, S: SEl>(plan: &mut Plan, gen: Option<(Profile
             });
             let fired = disarm();
             let op_drops = take_op_drops();
+            let mut alloc_refused = false;
             let crate_tag: String = match r {
                 Ok(t) => t.to_string(),
-                Err(_) => "panic".to_string(),
+                Err(payload) => {
+                    // environment observation only (never compared): did the arena refuse?
+                    let msg = payload.downcast_ref::<String>().map(|s| s.as_str()).or_else(|| payload.downcast_ref::<&str>().copied()).unwrap_or("");
+                    alloc_refused = msg.contains("allocation error");
+                    "panic".to_string()
+                }
             };
             if crate_tag == SKIP {
                 drop(args);
@@ -832,7 +838,7 @@ pub fn run_plan<T: El + PartialEq, S: SEl>(plan: &mut Plan, gen: Option<(Profile
             if fired {
                 env.panic_fired_in_plan = true;
             }
-            let alloc_refused = crate_tag == "err" && op.n == 1 << 44;
+            alloc_refused = alloc_refused || (crate_tag == "err" && op.n == 1 << 44);
             // what the caller now holds
             let moved_ids: Vec<u64> = ret.iter().map(|e| e.id()).collect();
             let ret_vals = vals_of(&ret);
@@ -1006,7 +1012,7 @@ pub fn run_plan<T: El + PartialEq, S: SEl>(plan: &mut Plan, gen: Option<(Profile
                     }
                 }
                 if let Some((oname, detail)) = bad {
-                    fail(prop, oname, format!("{}{}", class, detail));
+                    fail(prop, "ownership", format!("{}{} {}", class, oname, detail));
                     env.own_checks_off = true; // the ledger is now inconsistent by construction
                 }
             }
@@ -1019,13 +1025,13 @@ pub fn run_plan<T: El + PartialEq, S: SEl>(plan: &mut Plan, gen: Option<(Profile
                 let accounted = owned + zd + env.z_leaked;
                 let leak_allowed = op.forget || fired;
                 if accounted > zc {
-                    fail(prop, "double-drop", format!("{}zero-sized: created={} owned={} dropped={} leaked={}", class, zc, owned, zd, env.z_leaked));
+                    fail(prop, "ownership", format!("{}double-drop zero-sized: created={} owned={} dropped={} leaked={}", class, zc, owned, zd, env.z_leaked));
                     env.own_checks_off = true;
                 } else if accounted < zc {
                     if leak_allowed {
                         env.z_leaked += zc - accounted;
                     } else {
-                        fail(prop, "leak", format!("{}zero-sized: created={} owned={} dropped={} leaked={}", class, zc, owned, zd, env.z_leaked));
+                        fail(prop, "ownership", format!("{}leak zero-sized: created={} owned={} dropped={} leaked={}", class, zc, owned, zd, env.z_leaked));
                         env.own_checks_off = true;
                     }
                 }
@@ -1048,26 +1054,26 @@ pub fn run_plan<T: El + PartialEq, S: SEl>(plan: &mut Plan, gen: Option<(Profile
             if kind == 'E' {
                 for id in &end_drops {
                     if drop_count(*id) > 1 {
-                        out.oracle_fails.push(format!("ORACLE {} double-drop plan={} op={} end id {} dropped {} times when the containers were dropped", prop, plan.idx, plan.ops.len(), id, drop_count(*id)));
+                        out.oracle_fails.push(format!("ORACLE {} ownership plan={} op={} end double-drop id {} dropped {} times when the containers were dropped", prop, plan.idx, plan.ops.len(), id, drop_count(*id)));
                         break;
                     }
                 }
                 let hs: HashSet<u64> = end_drops.iter().copied().collect();
                 if held.iter().any(|id| !hs.contains(id)) {
-                    out.oracle_fails.push(format!("ORACLE {} end-not-dropped plan={} op={} end held={:?} dropped={:?}", prop, plan.idx, plan.ops.len(), held, end_drops));
+                    out.oracle_fails.push(format!("ORACLE {} ownership plan={} op={} end not-dropped held={:?} dropped={:?}", prop, plan.idx, plan.ops.len(), held, end_drops));
                 }
                 // every id ever created: dropped exactly once unless deliberately leaked
                 for id in 1..next_id() {
                     let c = drop_count(id);
                     if c > 1 || (c == 0 && !env.leaked_ok.contains(&id)) {
-                        out.oracle_fails.push(format!("ORACLE {} end-ledger plan={} op={} end id {} dropped {} times (leak allowed: {})", prop, plan.idx, plan.ops.len(), id, c, env.leaked_ok.contains(&id)));
+                        out.oracle_fails.push(format!("ORACLE {} ownership plan={} op={} end ledger id {} dropped {} times (leak allowed: {})", prop, plan.idx, plan.ops.len(), id, c, env.leaked_ok.contains(&id)));
                         break;
                     }
                 }
             } else if kind == 'Z' {
                 let (zc, zd) = z_counts();
                 if zd + env.z_leaked != zc {
-                    out.oracle_fails.push(format!("ORACLE {} end-ledger plan={} op={} end zero-sized created={} dropped={} leaked={}", prop, plan.idx, plan.ops.len(), zc, zd, env.z_leaked));
+                    out.oracle_fails.push(format!("ORACLE {} ownership plan={} op={} end ledger zero-sized created={} dropped={} leaked={}", prop, plan.idx, plan.ops.len(), zc, zd, env.z_leaked));
                 }
             }
         }
@@ -1081,7 +1087,7 @@ pub fn run_plan<T: El + PartialEq, S: SEl>(plan: &mut Plan, gen: Option<(Profile
     drop(bump);
     let after = take_op_drops();
     if !after.is_empty() {
-        out.oracle_fails.push(format!("ORACLE C15 arena-drop-ran-destructors plan={} op={} end ids={:?}", plan.idx, plan.ops.len(), after));
+        out.oracle_fails.push(format!("ORACLE C15 ownership plan={} op={} end arena-drop-ran-destructors ids={:?}", plan.idx, plan.ops.len(), after));
     }
     out.res_kinds = kinds.into_iter().collect();
     out
